@@ -35,14 +35,14 @@ RULE = ("case = random history (<= 9 quick / <= 16 thorough revisions, <= 3 bran
 CASES = {"quick": 32, "thorough": 640}
 BUDGET_S = {"quick": 45, "thorough": 780}
 MIN_EVALS = {"quick": 40, "thorough": 1500}
-FLOORS = {"quick": {"tip_oracle": 25, "revno_oracle": 30, "diverged_expected": 2, "append_only": 8},
-          "thorough": {"tip_oracle": 1200, "revno_oracle": 1200, "diverged_expected": 100, "append_only": 250, "smart_ops": 100, "git_ops": 40}}
+FLOORS = {"quick": {"tip_oracle": 25, "revno_oracle": 30, "diverged_expected": 2, "append_only": 8, "append_only_to_null": 1, "bound_master_ahead": 1},
+          "thorough": {"tip_oracle": 1200, "revno_oracle": 1200, "diverged_expected": 100, "append_only": 250, "smart_ops": 100, "git_ops": 40, "append_only_to_null": 30, "bound_master_ahead": 40}}
 ASSUMPTIONS = [
     "the requested revision is the stop_revision if given, else the source branch tip",
     "with overwrite the documented behaviour 'always set the branch pointer' is demanded (tip == requested revision)",
     "when the left-hand history of a tip runs into a ghost no revno is defined: GhostRevisionsHaveNoRevno is classified (tip must stay), a stored revno is not judged",
     "append-only: spurious refusals (AppendRevisionsOnlyViolation although the old tip is on the new left-hand history) are only counted; the statement forbids wrong acceptances",
-    "a bound target is prepared in step with its master (same tip) as bind() expects; when the bound target is addressed through bzr:// its master is not judged (RemoteBranch is never bound)",
+    "a bound target is prepared in step with its master or behind it (its tip an ancestor of the master's, an out-of-date heavy checkout); both are judged, each by its own relation to the request, and a refused operation must leave both unchanged; when the bound target is addressed through bzr:// its master is not judged (RemoteBranch is never bound)",
     "git<->git pairs (thorough) use a small private generator (fork, merge) because generated revision ids cannot be chosen for git commits",
 ]
 
@@ -164,6 +164,10 @@ def eval_pullpush(ctx, env, rng):
     g = env.g
     quick = ctx.tier == "quick"
     cls = rng.choice(CLASSES)
+    bound = rng.random() < 0.3 and env.fmt != "git"
+    if bound and rng.random() < 0.5:
+        # an out-of-date checkout whose own tip can still fast-forward to the request (its master may not)
+        cls = rng.choice(["mainline-ancestor", "mainline-ancestor", "merged-ancestor", "empty-target"])
     pr = env.pick(rng, cls)
     if pr is None:
         ctx.hist("class-unavailable:" + cls)
@@ -177,7 +181,6 @@ def eval_pullpush(ctx, env, rng):
         s = rng.choice(desc)
     op = rng.choice(["pull", "push"])
     overwrite = rng.random() < 0.3
-    bound = rng.random() < 0.25 and env.fmt != "git"
     transport = "local"
     if not quick and env.fmt != "git" and rng.random() < 0.3:
         transport = rng.choice(["bzr-target", "bzr-source"])
@@ -186,15 +189,27 @@ def eval_pullpush(ctx, env, rng):
     T = env.branch_at(root, "T", t)
     S = env.branch_at(root, "S", s)
     M = None
+    m = t
     if bound:
-        M = env.branch_at(root, "M", t)
+        # the master is either in step with the bound branch or ahead of it (an out-of-date heavy checkout); when ahead,
+        # half of the time on a line that diverged from the requested revision
+        if rng.random() < 0.6:
+            ahead = [r for r in env.revs if r != t and g.is_ancestor(t, r)]
+            div = [r for r in ahead if g.relation(r, req) == "diverged"]
+            if div and rng.random() < 0.6:
+                m = rng.choice(div)
+            elif ahead:
+                m = rng.choice(ahead)
+        M = env.branch_at(root, "M", m)
         Branch.open(T).bind(Branch.open(M))
     rel = g.relation(t, req)
     rc = _relation_class(g, t, req)
-    label = "%s/%s%s%s%s/%s/%s" % (env.fmt, op, "+stop" if use_stop else "", "+overwrite" if overwrite else "", "+bound" if bound else "", rc, transport)
-    d = {"case": label, "t": t.decode(), "s": s.decode(), "req": req.decode(), "parents": {k.decode(): [p.decode() for p in v] for k, v in g.pm.items()}}
+    label = "%s/%s%s%s%s/%s/%s" % (env.fmt, op, "+stop" if use_stop else "", "+overwrite" if overwrite else "",
+                                  ("+bound" + ("(master ahead, %s)" % g.relation(m, req) if m != t else "")) if bound else "", rc, transport)
+    d = {"case": label, "t": t.decode(), "s": s.decode(), "req": req.decode(), "m": m.decode(), "parents": {k.decode(): [p.decode() for p in v] for k, v in g.pm.items()}}
     ctx.info = {"label": label, "t": t.decode(), "s": s.decode(), "req": req.decode(), "log": env.hist.log[-30:] if env.hist else None}
     before_T, before_S = _info(T), _info(S)
+    before_M = _info(M) if M else None
     stop = req if use_stop else None
     exc = None
 
@@ -235,41 +250,57 @@ def eval_pullpush(ctx, env, rng):
     ctx.hist("op:%s%s%s%s" % (op, "+stop" if use_stop else "", "+overwrite" if overwrite else "", "+bound" if bound else ""))
     ctx.hist("relation:" + rc)
     ctx.hist("outcome:%s:%s" % (rc if not overwrite else "overwrite", exc or "ok"))
-    judged = [("target", T, before_T)]
+    judged = [("target", T, before_T, t)]
     if M:
         if transport == "bzr-target":
             # RemoteBranch has no notion of being bound: a push/pull addressed to bzr://.../T does not involve T's master (long-standing
             # behaviour, the statement is about the target tip only) - counted, not judged
             ctx.hist("bound:remote-target:master-%s" % ("followed" if _info(M)[1] == _info(T)[1] else "left-behind"))
         else:
-            judged.append(("master", M, before_T))
-    for what, path, before in judged:
+            judged.append(("master", M, before_M, m))
+            if m != t:
+                ctx.count("bound_master_ahead")
+                ctx.hist("bound:master-ahead:%s:%s" % (g.relation(m, req), exc or "ok"))
+    rels = {what: g.relation(tipw, req) for what, _p, _b, tipw in judged}
+    expect_diverged = (not overwrite) and "diverged" in rels.values()
+    if M and transport == "bzr-target" and exc == "DivergedBranches" and not overwrite and g.relation(m, req) == "diverged":
+        # whether an operation addressed to bzr://.../T consults T's master depends on the path taken (pull opens the real, bound branch;
+        # push does not): a refusal because of the diverged master is legitimate - nothing may have moved
+        ctx.hist("bound:remote-target:refused-because-of-master")
+        ctx.count("refused_unchanged")
+        ctx.check(_info(T) == before_T and _info(M) == before_M, "refused:tip-moved:remote-bound", "%s: DivergedBranches but target %r -> %r, master %r -> %r" % (
+            label, before_T, _info(T), before_M, _info(M)), d)
+        judged = []
+    for what, path, before, tipw in judged:
         after = _info(path)
+        rel_w = rels[what]
         ctx.count("tip_oracle")
+        if exc is not None:
+            # a refused operation leaves every tip where it was (the bound branch AND its master)
+            ctx.count("refused_unchanged")
+            ctx.check(after == before, "refused:tip-moved:%s" % what, "%s: operation raised %s but %s moved %r -> %r" % (label, exc, what, before, after), d)
         if exc == "GhostRevisionsHaveNoRevno":
             _lh, ghost = g.lefthand(req)
             if not ghost:
                 ctx.fail("ghost-revno-error:no-mainline-ghost", "%s: GhostRevisionsHaveNoRevno but the left-hand history of %r has no ghost" % (label, req), d)
-            if what == "target":
-                ctx.check(after == before, "ghost-revno-error:tip-moved", "%s: %s %r -> %r although the operation failed" % (label, what, before, after), d)
             continue
         if overwrite:
             if exc:
                 ctx.fail("overwrite:raised-%s" % exc, "%s: %s" % (label, what), d)
             else:
                 ctx.check(after[1] == req, "overwrite:tip-not-request:%s" % what, "%s: %s tip %r, requested %r" % (label, what, after[1], req), d)
-        elif rel in ("equal", "req-in-tip"):
-            ctx.check(exc is None, "already-merged:raised-%s" % exc, "%s: target already contains the requested revision" % label, d)
-            ctx.check(after == before, "already-merged:tip-moved:%s" % what, "%s: %s %r -> %r; %r is already in the ancestry of the tip" % (label, what, before, after, req), d)
-        elif rel == "tip-in-req":
-            ctx.check(exc is None, "descends:raised-%s" % exc, "%s: requested revision descends from the tip (%s)" % (label, rc), d)
-            ctx.check(after[1] == req, "descends:tip-not-request:%s" % what, "%s: %s tip %r, requested %r" % (label, what, after[1], req), d)
-        else:
+        elif expect_diverged:
             ctx.count("diverged_expected")
             if exc != "DivergedBranches":
-                ctx.fail("diverged:not-reported", "%s: tips diverged, no DivergedBranches; %s %r -> %r" % (label, what, before, after), d)
-            if after != before and what == "target":
+                ctx.fail("diverged:not-reported", "%s: tips diverged (%r), no DivergedBranches; %s %r -> %r" % (label, rels, what, before, after), d)
+            if after != before:
                 ctx.fail("diverged:tip-moved", "%s: %s %r -> %r" % (label, what, before, after), d)
+        elif rel_w in ("equal", "req-in-tip"):
+            ctx.check(exc is None, "already-merged:raised-%s" % exc, "%s: %s already contains the requested revision" % (label, what), d)
+            ctx.check(after == before, "already-merged:tip-moved:%s" % what, "%s: %s %r -> %r; %r is already in the ancestry of the tip" % (label, what, before, after, req), d)
+        else:
+            ctx.check(exc is None, "descends:raised-%s" % exc, "%s: requested revision descends from the %s tip" % (label, what), d)
+            ctx.check(after[1] == req, "descends:tip-not-request:%s" % what, "%s: %s tip %r, requested %r" % (label, what, after[1], req), d)
         # history never silently dropped without overwrite
         if not overwrite and exc is None:
             ctx.count("no_drop")
@@ -304,20 +335,28 @@ def eval_append_only(ctx, env, rng):
     t, req = pr
     if t == L.NULL:
         t = req
+    # the null revision as the requested tip: throwing the whole history away is the extreme non-append move
+    to_null = rng.random() < 0.22
+    if to_null:
+        op = rng.choice(["pull-overwrite", "push-overwrite", "set_last_revision_info", "generate_revision_history", "uncommit"])
     if op == "uncommit":
         lh, gh = g.lefthand(t)
-        if len(lh) < 2 or gh:
+        if (len(lh) < 2 and not to_null) or gh:
             ctx.hist("append-only:uncommit:no-mainline")
             return
     root = ctx.tmp("c21a")
     T = env.branch_at(root, "T", t)
-    S = env.branch_at(root, "S", req)
+    S = env.branch_at(root, "S", t if to_null else req)
+    if to_null:
+        req = L.NULL
+        ctx.count("append_only_to_null")
+    stop = L.NULL if to_null else None
     tb = Branch.open(T)
     if not tb._format.supports_set_append_revisions_only():
         ctx.hist("append-only:unsupported-format")
         return
     tb.set_append_revisions_only(True)
-    label = "%s/append-only/%s/%s" % (env.fmt, op, _relation_class(g, t, req))
+    label = "%s/append-only/%s/%s" % (env.fmt, op, "to-null" if to_null else _relation_class(g, t, req))
     d = {"case": label, "t": t.decode(), "req": req.decode(), "parents": {k.decode(): [p.decode() for p in v] for k, v in g.pm.items()}}
     ctx.info = {"label": label, "t": t.decode(), "req": req.decode()}
     before = _info(T)
@@ -330,11 +369,12 @@ def eval_append_only(ctx, env, rng):
         elif op == "push":
             sb.push(tb)
         elif op == "pull-overwrite":
-            tb.pull(sb, overwrite=True)
+            tb.pull(sb, overwrite=True, stop_revision=stop)
         elif op == "push-overwrite":
-            sb.push(tb, overwrite=True)
+            sb.push(tb, overwrite=True, stop_revision=stop)
         elif op in ("set_last_revision_info", "generate_revision_history"):
-            tb.repository.fetch(sb.repository, revision_id=req)
+            if not to_null:
+                tb.repository.fetch(sb.repository, revision_id=req)
             lh, gh = g.lefthand(req)
             with tb.lock_write():
                 if op == "set_last_revision_info":
@@ -343,8 +383,8 @@ def eval_append_only(ctx, env, rng):
                     tb.generate_revision_history(req)
         else:
             lh, _gh = g.lefthand(t)
-            k = rng.randint(1, len(lh) - 1)  # new tip = lh[k]
-            req = lh[k]
+            k = len(lh) if to_null else rng.randint(1, len(lh) - 1)  # new tip = lh[k], or null: when k == len(lh)
+            req = lh[k] if k < len(lh) else L.NULL
             uncommit(tb, revno=len(lh) - k + 1)
     except errors.AppendRevisionsOnlyViolation:
         exc = "AppendRevisionsOnlyViolation"
